@@ -753,9 +753,15 @@ def traces_history(rng):
     run = "r1www"
     g.ops.append("proc reply k1 connect 0 200 run=%s rp=- ee=- ae=- ce=- se=- le=- srp=- sl=- rules=- hdr=-" % run)
     for period in range(rng.randint(1, 2)):
-        kinds = ["reg"] * rng.randint(0, 4) + ["force"] * rng.randint(8, 14) + ["syn"] * rng.randint(0, 24) + ["both"] * rng.randint(0, 6)
+        kinds = ["reg"] * rng.randint(0, 4) + ["force"] * rng.randint(8, 14) + ["syn"] * rng.randint(0, 24) + ["both"] * rng.randint(1, 6)
         rng.shuffle(kinds)
         durs = rng.sample(range(1, 5000), len(kinds))
+        if rng.random() < 0.6:
+            # traces that are both synthetics and force-persisted, shorter than every force-persisted one: they belong to the
+            # synthetics pool whatever the force-persist pool holds
+            lo = iter(rng.sample(range(1, 1000), len(kinds)))
+            hi = iter(rng.sample(range(1000, 5000), len(kinds)))
+            durs = [next(lo) if k == "both" else next(hi) for k in kinds]
         for kind, d in zip(kinds, durs):
             g.ops.append("proc txn %s name=t1 pid=1 prio=%d%s tr=%d:%d:%d" % (
                 run, rng.randrange(1000000), " syn=1" if kind in ("syn", "both") else "", d, g.fresh()[0], 1 if kind in ("force", "both") else 0))
